@@ -1,6 +1,6 @@
 (* Properties.v - the property theorems and nothing else.  Every theorem is
    closed by [exact <lemma>] and followed by Print Assumptions. *)
-From NTRIP Require Import Base Bits BitsProofs Crc CrcProofs Time Classify Frame FrameSpec FrameProofs.
+From NTRIP Require Import Base Bits BitsProofs Crc CrcProofs Time Classify Frame FrameSpec FrameProofs Html Queue QueueProofs.
 
 (* ===================== C14 ===================== *)
 (* Unsigned extraction returns the integer whose binary digits are the addressed
@@ -108,3 +108,32 @@ Example C07_example :
   exists m h', get_message (new_handler 0) [211; 0; 2; 67; 80; 6; 162; 126]%N = Ok (Some m, h') /\
                mtype m = 1077%Z /\ merr m = Some ErrTooShort.
 Proof. eexists. eexists. split; [vm_compute; reflexivity|]. split; reflexivity. Qed.
+
+(* ===================== C18 (sequential part) ===================== *)
+(* For a queue of capacity N >= 1 and every sequence of additions, a snapshot returns exactly
+   the most recent min(N, number added) messages in the order they were added, and the queue
+   never holds more than N. *)
+Theorem C18_last_n : forall (A : Type) (n : nat) (xs : list A), (1 <= n)%nat ->
+  let q := fold_left qadd xs (new_queue n) in
+  snapshot q = lastn (Nat.min n (length xs)) xs /\ (length (q_items q) <= n)%nat.
+Proof. exact queue_last_n. Qed.
+Print Assumptions C18_last_n.
+
+Example C18_example :
+  snapshot (fold_left qadd [1; 2; 3; 4; 5]%N (new_queue 3)) = [3; 4; 5]%N.
+Proof. vm_compute. reflexivity. Qed.
+
+(* ===================== C19 (report part) ===================== *)
+(* Every traffic-derived part of the status page (both buffer dumps and the message list) is
+   passed through the sanitiser, and sanitised text contains neither '<' nor '>'. *)
+Theorem C19_escaped : forall dump_c dump_s displays,
+  forallb no_markup (traffic_parts dump_c dump_s displays) = true.
+Proof. exact traffic_parts_escaped. Qed.
+Print Assumptions C19_escaped.
+
+Theorem C19_sanitise : forall s, no_markup (sanitise s) = true.
+Proof. exact sanitise_no_markup. Qed.
+Print Assumptions C19_sanitise.
+
+Example C19_example : sanitise [60; 98; 62]%N = [38; 108; 116; 59; 98; 38; 103; 116; 59]%N.
+Proof. vm_compute. reflexivity. Qed.
